@@ -134,34 +134,31 @@ let virt_model (tbs : tables list) (a : string array) (obs : string) : string =
     let total t = L.fold_left2 (fun acc c d -> BinNat.N.add acc (BinNat.N.mul c d)) BinNums.N0 t.t_stts_count t.t_stts_delta in
     let tks = L.map (fun h -> let tr = h.th_trak in
                       ((BinNat.N.div (BinNat.N.mul (total tr.ti_tb) mvts) tr.ti_ts, total tr.ti_tb), None)) hs in
-    let r = match crop_mp4_file hs (n_of_dec a.(0)) (n_of_dec rest) with
-      | Ok ((et, ets), (((tbs', ranges), ks), swm)) ->
-        (match write_upto_mdat_durs et ets mvts tks with
-         | Ok (nd, tks') ->
-           let fin msz cks =
-             S.concat "/" ["ok"; dec_of_n swm; dec_of_n msz; dec_of_n (BinNat.N.add swm msz);
-                           S.concat "," (L.map dec_of_n ks); S.concat "|" (L.map offs_str tbs'); dec_of_n nd;
-                           S.concat "," (L.map (fun ((tk, _), _) -> dec_of_n tk) tks'); cks] in
-           if a.(7) = "1" then begin
-             (* multi-gigabyte virtual payload: sizes only *)
-             let psz = ranges_size ranges BinNums.N0 in
-             if BinNat.N.leb (n_of_dec "4294967296") (BinNat.N.add psz (n_of_int 8)) then "err"
-             else fin (BinNat.N.add psz (n_of_int 8)) "-"
-           end else begin
-             let in_hdr = int_of_string a.(2) and pay = int_of_string a.(6) in
-             let b = int_of_string base in
-             let flen = int_of_string oldswm + in_hdr + pay in
-             let file = L.init flen (fun p -> if p >= b && p < b + pay then file_byte p else BinNums.N0) in
-             let sp = n_of_int (b - in_hdr) and large = in_hdr = 16 and pl = n_of_int pay in
-             let m = if mem then C08Model.mdat_mem file sp large pl else C08Model.mdat_lazy sp large pl in
-             match write_mdat file true m ranges with
-             | Ok mb ->
-               let c = ref 0 and i = ref 0 in
-               L.iter (fun x -> (if !i >= 8 then c := (!c + (!i - 7) * int_of_n x) mod 1000000007); incr i) mb;
-               fin (n_of_int (L.length mb)) (string_of_int !c)
-             | Err -> "err" | Panic -> "panic" | OutOfFuel -> "outoffuel"
-           end
-         | Err -> "err" | Panic -> "panic" | OutOfFuel -> "outoffuel")
+    let r = match crop_mp4_all hs mvts tks (n_of_dec a.(0)) (n_of_dec rest) with
+      | Ok (((_, _), (((tbs', ranges), ks), swm)), (nd, tks')) ->
+        let fin msz cks =
+          S.concat "/" ["ok"; dec_of_n swm; dec_of_n msz; dec_of_n (BinNat.N.add swm msz);
+                        S.concat "," (L.map dec_of_n ks); S.concat "|" (L.map offs_str tbs'); dec_of_n nd;
+                        S.concat "," (L.map (fun ((tk, _), _) -> dec_of_n tk) tks'); cks] in
+        if a.(7) = "1" then begin
+          (* multi-gigabyte virtual payload: sizes only *)
+          let psz = ranges_size ranges BinNums.N0 in
+          if BinNat.N.leb (n_of_dec "4294967296") (BinNat.N.add psz (n_of_int 8)) then "err"
+          else fin (BinNat.N.add psz (n_of_int 8)) "-"
+        end else begin
+          let in_hdr = int_of_string a.(2) and pay = int_of_string a.(6) in
+          let b = int_of_string base in
+          let flen = int_of_string oldswm + in_hdr + pay in
+          let file = L.init flen (fun p -> if p >= b && p < b + pay then file_byte p else BinNums.N0) in
+          let sp = n_of_int (b - in_hdr) and large = in_hdr = 16 and pl = n_of_int pay in
+          let m = if mem then C08Model.mdat_mem file sp large pl else C08Model.mdat_lazy sp large pl in
+          match write_mdat file true m ranges with
+          | Ok mb ->
+            let c = ref 0 and i = ref 0 in
+            L.iter (fun x -> (if !i >= 8 then c := (!c + (!i - 7) * int_of_n x) mod 1000000007); incr i) mb;
+            fin (n_of_int (L.length mb)) (string_of_int !c)
+          | Err -> "err" | Panic -> "panic" | OutOfFuel -> "outoffuel"
+        end
       | Err -> "err" | Panic -> "panic" | OutOfFuel -> "outoffuel" in
     base ^ "/" ^ oldswm ^ "/" ^ rest ^ "/" ^ r
   | _ -> "badobs"
